@@ -28,7 +28,7 @@ CONSTANTS GenIds, GenEls, GenBufs,
 VARIABLE trail
 gvars == <<vars, trail>>
 
-GenQLists == {<<q>> : q \in Queries} \cup (IF Pairs THEN {<<a, b>> : a, b \in {"-1", "1", "4", "NaN"}} ELSE {})
+GenQLists == {<<q>> : q \in Queries} \cup (IF Pairs THEN {<<a, b>> : a, b \in {"-1", "1", "4", "NaN"}} ELSE {}) \cup EmptyQ
 T == CHOOSE t \in Threads : TRUE
 
 GInit == Init /\ trail = <<>>
@@ -94,7 +94,11 @@ QueryEv(e, c, k) ==
                  q |-> [s |-> qshape, v |-> IF two THEN PaySeq(e, [j \in 1..n |-> c.qs[j][1]]) ELSE PaySeq(e, c.qs)]]
         withY == IF two THEN [q2 |-> [s |-> qshape, v |-> PaySeq(e, [j \in 1..n |-> c.qs[j][2]])]] @@ base ELSE base
     IN  IF c.buf = "none" THEN withY
-        ELSE [buf |-> [lay |-> "C", s |-> (IF c.buf = "ok" THEN <<n>> ELSE <<n + 1>>) \o lanes]] @@ withY
+        \* a wrong buffer is one too long on the query axis; for the EMPTY batch over multi-lane data it is wrong in
+        \* the lane axis instead (no lane is ever selected for it, so only an explicit shape check can reject it)
+        ELSE [buf |-> [lay |-> "C", s |-> IF c.buf = "ok" THEN <<n>> \o lanes
+                                          ELSE IF n = 0 /\ lanes # <<>> THEN <<0, lanes[1] + 1>>
+                                          ELSE <<n + 1>> \o lanes]] @@ withY
 
 Emit1(e) ==
     /\ PrintT("CASE " \o ToJson([ev |-> "Mark"]))
